@@ -3,15 +3,20 @@
 Real code: TabularInput/SpreadsheetInput(...).validate(schema, extra_def_dicts).
 Oracle   : per row, HedString(assembled row text).validate() (string level), the assembled text coming from the C06
            statement (reference-free sidecars only), + a labelling rule (1-based file row, header counted; column of the cell)
-           + a small temporal oracle (Onset/Offset/Inset bookkeeping in time order) used only on string-clean, Delay-free
-           tables; relational check: every row permutation of a table yields the same issues modulo row labels and the
-           single ONSETS_UNORDERED warning.
+           + a small temporal oracle (Onset/Offset/Inset bookkeeping in time order; a top-level group carrying a Delay tag
+           is its own event at onset + delay, also when one row has several such groups) used only on string-clean tables
+           whose Delay groups are plain '(…, Delay/<number> s|ms, …)' top-level groups that do not land on another row;
+           relational checks: every row permutation of a table yields the same issues modulo row labels and the
+           single ONSETS_UNORDERED warning; a table whose reserved tags (Def, Onset, Offset, Inset, Delay, Duration) are
+           respelled in lower / upper / mixed case yields the same issues as the canonical spelling (HED tags are
+           case-insensitive) modulo message text and the capitalisation style warning.
 """
 import collections
 import io
 import itertools
 import json
 import multiprocessing
+import re
 import warnings
 
 from rt.common import Workload, main, schema
@@ -19,7 +24,7 @@ from rt.c06 import parse_strict, NA
 
 WORKERS = 14
 ONSETS = ["1.5", "2.25", "9.0", "10.125"]   # increasing as numbers, not as strings; +2 s / +0.5 s / +3 ms never collide
-DEFS = "(Definition/MyDef, (Green))"
+DEFS = ["(Definition/MyDef, (Green))", "(Definition/Other, (Square))"]
 
 L_RAISES = "C07.raises.none"
 L_D5 = "C07.raises.delay_unit_letter_case"          # D5
@@ -32,6 +37,8 @@ L_HEADER = "C07.label.headerless_row"
 L_COLLABEL = "C07.label.column"
 L_KEYMISS = "C07.structure.key_missing"
 L_TEMPORAL = "C07.temporal.codes"
+L_CASE = "C07.delay.case_insensitive"               # reserved tags in any letter case behave as the canonical spelling
+L_MULTI = "C07.delay.several_groups_in_one_row"     # every Delay group of a row is its own event at onset + delay
 L_SHUFFLE = "C07.shuffle.invariant"
 L_UNORDERED = "C07.shuffle.unordered_warning"
 L_NAONSET = "C07.onset.na_row_validated"             # new: rows with n/a onset are mis-indexed after sorting
@@ -224,26 +231,95 @@ def temporal_groups(text):
     return out
 
 
-def temporal_oracle(texts_in_time_order):
-    """number of temporal-relation errors per row: same definition used twice in a row, Offset/Inset with nothing open"""
+_DELAY_VALUE = re.compile(r"^(?i:delay)/(\d+(?:\.\d+)?) (s|ms)$")     # unit symbols are case-sensitive, tag names are not
+TIME_TOL = 1e-9
+
+
+def temporal_events(text):
+    """top-level groups carrying Onset/Offset/Inset and a Def, with the shift of the group's Delay tag:
+    list of (marker, def name lower-cased, delay in seconds), or None when the text has a Delay tag that is not a plain
+    'Delay/<number> s|ms' directly inside a top-level group (one per group) - the oracle does not judge those."""
+    if not text.strip():
+        return []
+    tree = parse_strict(text)
+    if tree is None:
+        return None
+    for leaf, depth in _leaves(tree):
+        if leaf.split("/")[0].strip().casefold() == "delay" and (depth != 1 or not _DELAY_VALUE.match(leaf.strip())):
+            return None
+    out = []
+    for node in tree:
+        if isinstance(node, list):
+            direct = [x.strip() for x in node if isinstance(x, str)]
+            marks = [x.casefold() for x in direct if x.casefold() in TEMPORAL_TAGS]
+            defs = [x.split("/", 1)[1].casefold() for x in direct if x.casefold().startswith("def/")]
+            delays = [_DELAY_VALUE.match(x) for x in direct if x.split("/")[0].casefold() == "delay"]
+            if len(delays) > 1:
+                return None
+            shift = float(delays[0].group(1)) * (0.001 if delays[0].group(2) == "ms" else 1.0) if delays else 0.0
+            if marks and defs:
+                out.append((marks[0], defs[0], shift))
+    return out
+
+
+def count_delay_groups(text):
+    tree = parse_strict(text)
+    return sum(1 for node in tree or [] if isinstance(node, list)
+               and any(isinstance(x, str) and x.split("/")[0].strip().casefold() == "delay" for x in node))
+
+
+def temporal_oracle(rows_in_time_order):
+    """rows: (onset, assembled text) in time order.  Number of temporal-relation errors per row (same definition used
+    twice at one time point, Offset/Inset with nothing open), every group taking effect at onset + its Delay.
+    None when not applicable: an unjudged Delay form, or a shifted group landing on a time point of another row
+    (the statement does not fix the order inside such a time point)."""
+    events = []
+    for r, (t, text) in enumerate(rows_in_time_order):
+        ev = temporal_events(text)
+        if ev is None:
+            return None
+        for p, (mark, name, shift) in enumerate(ev):
+            events.append((t + shift, r, p, mark, name))
+    row_times = [(t, r) for r, (t, _) in enumerate(rows_in_time_order)]
+    events.sort(key=lambda e: (e[0], e[1], e[2]))
+    counts = [0] * len(rows_in_time_order)
     open_defs = set()
-    counts = []
-    for text in texts_in_time_order:
-        n = 0
+    i = 0
+    while i < len(events):
+        j = i
+        while j < len(events) and events[j][0] - events[i][0] <= TIME_TOL:
+            j += 1
+        here = events[i:j]
+        owners = {e[1] for e in here} | {r for t, r in row_times if abs(t - here[0][0]) <= TIME_TOL}
+        if len(owners) > 1:
+            return None
         used = set()
-        for mark, name in temporal_groups(text):
+        for _, r, _, mark, name in here:
             if name in used:
-                n += 1
+                counts[r] += 1
                 continue
             used.add(name)
             if mark == "onset":
                 open_defs.add(name)
             elif name not in open_defs:
-                n += 1
+                counts[r] += 1
             elif mark == "offset":
                 open_defs.discard(name)
-        counts.append(n)
+        i = j
     return counts
+
+
+RESERVED = re.compile(r"(?<![\w/-])(Def|Onset|Offset|Inset|Delay|Duration)(?=\s*[/,)]|\s*$)")
+
+
+def _mixed(word):
+    return "".join(ch.upper() if k % 2 else ch.lower() for k, ch in enumerate(word))
+
+
+def respell(text, mode):
+    """the reserved tag names of `text` in lower / upper / mixed letter case (values, units and other tags untouched)"""
+    f = {"lower": str.lower, "upper": str.upper, "mixed": _mixed}[mode]
+    return RESERVED.sub(lambda m: f(m.group(1)), text)
 
 
 def count_time_tags(text):
@@ -261,9 +337,11 @@ def _sev_error(i):
     return i["severity"] == ErrorSeverity.ERROR
 
 
-def check_file(layout, rows, order, raise_label=L_RAISES, eq_label=L_EQUAL):
+def check_file(layout, rows, order, raise_label=L_RAISES, eq_label=L_EQUAL, temporal_label=L_TEMPORAL, canon_rows=None):
     """validate the file whose rows are rows[order[0]], rows[order[1]], ...; returns (checks, canonical issues)
-    checks: list of (clause, ok, observed, expected); canonical: multiset of issues with row labels mapped to base rows"""
+    checks: list of (clause, ok, observed, expected); canonical: multiset of issues with row labels mapped to base rows.
+    canon_rows: the same table with the reserved tags in canonical spelling (relational letter-case check);
+    temporal_label None: the temporal oracle is not consulted (respelled tables: the canonical table is judged by it)"""
     lay = LAYOUTS[layout]
     adj = 2 if lay["header"] else 1
     file_rows = [rows[k] for k in order]
@@ -286,7 +364,6 @@ def check_file(layout, rows, order, raise_label=L_RAISES, eq_label=L_EQUAL):
         if i.get("ec_row") is not None:
             by_row[i["ec_row"] - adj].append(i)
     clean_table = True
-    delay_table = any(has_delay(s["text"]) for s in spec)
     extras = []
     for k in range(n):
         s = spec[k]
@@ -345,13 +422,25 @@ def check_file(layout, rows, order, raise_label=L_RAISES, eq_label=L_EQUAL):
         got_km = collections.Counter((i["ec_row"] - adj if i.get("ec_row") is not None else None, i.get("ec_column"))
                                      for i in issues if i["code"] == "SIDECAR_KEY_MISSING")
         add(L_KEYMISS, got_km == want_km, sorted(map(str, got_km.elements())), sorted(map(str, want_km.elements())))
-    # temporal oracle (string-clean, Delay-free tables with an onset column)
-    if lay["onset"] and clean_table and not delay_table:
+    # temporal oracle (string-clean tables with an onset column; plain Delay groups that land on no other row)
+    if lay["onset"] and clean_table and temporal_label is not None:
         in_time = sorted(range(n), key=lambda k: order[k])
-        counts = temporal_oracle([spec[k]["text"] for k in in_time])
-        want_t = {k: c for k, c in zip(in_time, counts)}
-        got_t = {k: extras[k] for k in range(n)}
-        add(L_TEMPORAL, got_t == want_t, got_t, want_t)
+        onset_col = lay["columns"].index("onset")
+        counts = temporal_oracle([(float(file_rows[k][onset_col]), spec[k]["text"]) for k in in_time])
+        if counts is not None:
+            want_t = {k: c for k, c in zip(in_time, counts)}
+            got_t = {k: extras[k] for k in range(n)}
+            add(temporal_label, got_t == want_t, got_t, want_t)
+    # letter case of the reserved tags is irrelevant: same issues as the canonical spelling (messages and the
+    # capitalisation style warning aside)
+    if canon_rows is not None:
+        c_issues, c_err = validate_file(layout, [canon_rows[k] for k in order])
+        sig = lambda iss: collections.Counter((i["code"], i.get("ec_row"), str(i.get("ec_column"))) for i in iss
+                                              if i["code"] != "STYLE_WARNING")
+        got_c = sig(issues)
+        want_c = sig(c_issues) if c_err is None else None
+        add(L_CASE, got_c == want_c, sorted(map(list, got_c.elements()), key=str),
+            c_err if want_c is None else sorted(map(list, want_c.elements()), key=str))
     # out-of-order warning
     if lay["onset"]:
         n_un = sum(1 for i in issues if i["code"] == "ONSETS_UNORDERED")
@@ -359,7 +448,7 @@ def check_file(layout, rows, order, raise_label=L_RAISES, eq_label=L_EQUAL):
             0 if list(order) == sorted(order) else 1)
     if eq_label != L_EQUAL:  # dedicated part: every row-content check is attributed to its narrow label
         res = [((eq_label if cl in (L_EQUAL, L_CELLS, L_COLLABEL) else cl), ok, o, e) for cl, ok, o, e in res
-               if cl not in (L_UNORDERED, L_TEMPORAL)]
+               if cl not in (L_UNORDERED, L_TEMPORAL, temporal_label)]
     canon = collections.Counter()
     for i in issues:
         if i["code"] == "ONSETS_UNORDERED":
@@ -370,14 +459,15 @@ def check_file(layout, rows, order, raise_label=L_RAISES, eq_label=L_EQUAL):
     return res, canon
 
 
-def check_table(layout, rows, perms=None, raise_label=L_RAISES, eq_label=L_EQUAL):
+def check_table(layout, rows, perms=None, raise_label=L_RAISES, eq_label=L_EQUAL, temporal_label=L_TEMPORAL,
+                canon_rows=None):
     """all (or the given) row permutations of one base table (rows listed in onset order)"""
     n = len(rows)
     perms = perms if perms is not None else list(itertools.permutations(range(n)))
     out = []
     base = None
     for order in perms:
-        res, canon = check_file(layout, rows, list(order), raise_label, eq_label)
+        res, canon = check_file(layout, rows, list(order), raise_label, eq_label, temporal_label, canon_rows)
         if list(order) == list(range(n)):
             base = canon
         elif base is not None and canon is not None:
@@ -395,7 +485,8 @@ def _job(job):
     per = {}
     for tb in job["tables"]:
         layout, rows = tb["layout"], tb["rows"]
-        results = check_table(layout, rows, tb.get("perms"), tb.get("raise_label", L_RAISES), tb.get("eq_label", L_EQUAL))
+        results = check_table(layout, rows, tb.get("perms"), tb.get("raise_label", L_RAISES), tb.get("eq_label", L_EQUAL),
+                              tb.get("temporal_label", L_TEMPORAL), tb.get("canon_rows"))
         for order, res in results:
             out["n"] += 1
             out["keys"].append((tb["key"], tuple(order)))
@@ -408,7 +499,9 @@ def _job(job):
                     if per[clause] <= 2:
                         out["fails"].append((clause, {"layout": layout, "rows": rows, "order": order,
                                                       "raise_label": tb.get("raise_label", L_RAISES),
-                                                      "eq_label": tb.get("eq_label", L_EQUAL)}, obs, exp))
+                                                      "eq_label": tb.get("eq_label", L_EQUAL),
+                                                      "temporal_label": tb.get("temporal_label", L_TEMPORAL),
+                                                      "canon_rows": tb.get("canon_rows")}, obs, exp))
                     else:
                         out["fails"].append((clause, None, None, None))
     return out
@@ -523,11 +616,63 @@ def na_onset_tables(w):
     return tables
 
 
+# row types of the Delay part (canonical spelling).  Onsets 1.5 / 2.25 / 9.0 / 10.125 plus 2 s / 500 ms / 3 ms never meet
+# another row, so every shifted group is alone at its time point - except groups of ONE row with equal shifts.
+DELAY_POOL = [
+    "(Def/MyDef, Onset)", "(Def/MyDef, Offset)", "(Def/MyDef, Inset), Red", "(Def/Other, Onset, (Blue))",
+    "(Def/Other, Offset)",
+    # one shifted group
+    "(Def/MyDef, Onset, Delay/2 s)", "(Def/MyDef, Offset, Delay/2 s), Blue", "(Delay/500 ms, Def/MyDef, Inset)",
+    "(Def/MyDef, Offset, Delay/3 ms)", "(Def/Other, Onset, Delay/500 ms), (Def/MyDef, Inset)",
+    # two or three shifted groups in one row: different shifts (in and against text order), equal shifts, equal shifts
+    # in different units, shifts that pass the next row, the same name twice at one shifted time point
+    "(Def/MyDef, Onset, Delay/500 ms), (Def/MyDef, Offset, Delay/2 s)",
+    "(Def/MyDef, Offset, Delay/2 s), (Def/MyDef, Onset, Delay/3 ms)",
+    "(Def/MyDef, Onset, Delay/2 s), (Def/Other, Onset, Delay/2000 ms), Red",
+    "(Def/MyDef, Onset, Delay/500 ms), (Def/MyDef, Inset, Delay/500 ms)",
+    "(Def/Other, Offset, Delay/2 s), (Def/MyDef, Inset, Delay/3 ms), (Def/Other, Onset, Delay/500 ms)",
+    "(Def/MyDef, Inset, Delay/2 s), (Def/MyDef, Inset, Delay/3 ms), (Def/MyDef, Offset, Delay/2 s)",
+    # errors that only the full check of the shifted group can find
+    "(Delay/500 ms, (Red, Red)), (Delay/2 s, (Blue))",
+    "(Delay/2 s, Duration/3 s, (Blue)), (Delay/2000 ms, Duration/2 s, (Red, (Green), (Green)))",
+    "(Delay/2 s, (Blue)), (Delay/3 ms, Duration/2 s, (Square)), (Delay/500 ms, (Square, Square))",
+]
+CASE_MODES = ["lower", "upper", "mixed"]
+
+
+def delay_tables(w):
+    """sets of 1-3 row types of DELAY_POOL in a seeded time order, each also respelled (reserved tags in lower / upper /
+    mixed case) and compared with the canonical spelling"""
+    idx = range(len(DELAY_POOL))
+    combos = list(itertools.combinations(idx, 1)) + list(itertools.combinations(idx, 2))
+    three = list(itertools.combinations(idx, 3))
+    if w.quick:
+        three = sorted(w.rng.sample(three, 160))
+    tables = []
+    for no, combo in enumerate(combos + three):
+        rnd = list(combo)
+        w.rng.shuffle(rnd)
+        cells = [DELAY_POOL[i] for i in rnd]
+        rows = build_rows("hed1", [{"HED": c} for c in cells], ONSETS)
+        several = any(count_delay_groups(c) > 1 for c in cells)
+        tables.append({"layout": "hed1", "rows": rows, "key": ("delay", tuple(rnd)),
+                       "temporal_label": L_MULTI if several else L_TEMPORAL})
+        modes = CASE_MODES if (not w.quick or len(combo) < 3) else [CASE_MODES[no % 3]]
+        for mode in modes:
+            twin = build_rows("hed1", [{"HED": respell(c, mode)} for c in cells], ONSETS)
+            tables.append({"layout": "hed1", "rows": twin, "key": ("delay", tuple(rnd), mode), "temporal_label": None,
+                           "canon_rows": rows})   # judged against the canonical table, which the temporal oracle judges
+    return tables
+
+
 def run(w: Workload):
     w.rule = ("6 file layouts (events table from DataFrame / from TSV text, 1-3 HED-bearing columns with categorical and value "
               "sidecar columns, spreadsheet with and without header row); per layout a pool of 12-17 row types (valid, invalid "
               "at cell level, invalid only as a row, temporal markers, Delay/Duration, n/a, unknown key); a table = a set of "
-              "1-4 distinct row types in a seeded time order at distinct onsets; a case = one row permutation of a table")
+              "1-4 distinct row types in a seeded time order at distinct onsets; a case = one row permutation of a table.  "
+              "Part delay-groups: a further pool of 19 row types (Onset/Offset/Inset of two definitions unshifted and inside "
+              "Delay groups, rows with two or three top-level Delay groups with equal / different / reordering shifts), sets "
+              "of 1-3 of them, every table also with the reserved tags in lower, upper and mixed case")
     counters = {}
     _env()  # load schema and definitions before forking
     tables = main_tables(w)
@@ -549,11 +694,22 @@ def run(w: Workload):
     n = _absorb(w, _par(_chunks(nt, 20)), counters)
     w.part("na-onset", cases=n, bound="2-3 row tables with at least one n/a onset at every position over 4 cell texts",
            exhaustive=not w.quick, base_tables=len(nt))
+    dt = delay_tables(w)
+    dt.sort(key=lambda t: -len(t["rows"]))
+    n = _absorb(w, list(reversed(_par(_chunks(dt, 6)))), counters)     # smallest tables first: minimal failure records
+    w.part("delay-groups", cases=n, bound=f"all sets of 1-2 of {len(DELAY_POOL)} row types (Onset/Offset/Inset of two definitions, "
+           "unshifted and shifted by Delay 2 s / 500 ms / 3 ms / 2000 ms; rows with two or three Delay groups: different, equal, "
+           "reordering shifts; errors only the full check of a shifted group finds)"
+           + ("; 160 seeded sets of 3" if w.quick else "; all sets of 3") + "; ALL row permutations; each table also with Def, "
+           "Onset, Offset, Inset, Delay, Duration respelled in lower, upper and mixed case"
+           + (" (sets of 3: one of the three spellings)" if w.quick else ""), exhaustive=False, base_tables=len(dt))
     w.bounded[-1]["checks_per_clause"] = counters
     w.exhaustive = False
     w.not_covered += ["rows sharing an onset (merged before validation) and Delay groups landing on another row's onset",
-                      "temporal oracle on tables with Delay groups or with invalid rows (only invariance and the bound "
-                      "'extra TEMPORAL_TAG_ERROR <= temporal groups of the row' are checked there)",
+                      "temporal oracle on tables with invalid rows or with Delay groups other than plain top-level "
+                      "'(..., Delay/<number> s|ms, ...)' groups (only invariance and the bound 'extra TEMPORAL_TAG_ERROR <= "
+                      "temporal groups of the row' are checked there)",
+                      "letter-case respelling of tags other than Def/Onset/Offset/Inset/Delay/Duration, and of unit names",
                       "warnings are compared only through shuffle invariance, not against string-level validation",
                       ".xlsx input; column_prefix_dictionary; missing/duplicate/blank column names; unknown column references",
                       "sidecar entries with curly-brace references (C06)"]
@@ -569,7 +725,8 @@ def replay(w: Workload, case: dict):
     n = len(inp["rows"])
     perms = [list(range(n))] + ([inp["order"]] if inp["order"] != list(range(n)) else [])
     for order, res in check_table(inp["layout"], inp["rows"], perms, inp.get("raise_label", L_RAISES),
-                                  inp.get("eq_label", L_EQUAL)):
+                                  inp.get("eq_label", L_EQUAL), inp.get("temporal_label", L_TEMPORAL),
+                                  inp.get("canon_rows")):
         if order != inp["order"]:
             continue
         for cl, ok, obs, exp in res:
